@@ -368,6 +368,7 @@ def run(prog, R, tier):
     dsarules.r_hcount(prog, R)
     dsarules.r_hasheq(prog, R)
     dsarules.r_slinks(prog, R)
+    dsarules.r_append_finish(prog, R, "R-C19-APPENDFIN")
     files = {f.file for f in prog.funcs.values() if DSA(f)} | {"src/lib/str/ares_buf.c"}
     ownrules.own_rule(prog, R, "R-C19-OWN", files, floor=20, include_contract=True)
     C14.r_prealloc(prog, R, rid="R-C19-PREALLOC")
